@@ -10,7 +10,7 @@ claim("C06",
        "per operation the round trip lands in {t-1, t}, both through the integer-corrected conversion (oracle-free) and through base_unit_price_to_tick's float "
        "logarithm. Tied to the code by bit-exact differential execution of the real functions against the compiled models (driver, driver_tick) plus the "
        "property oracle on the implementation's outputs (quick: stride sample, thorough: every tick).",
-  note="Trusted: Lean kernel, tools/gen_consts.py, harness generators. The enclosure constants and tools/gen_c06_close.py are not trusted (re-certified in the "
+  note="Floor for every estimate without a fuel hypothesis; nearest usable tick is nearest among all in-range multiples incl. the end corrections; converse price->tick->price bracket (x96 route 1e-33 in the 35-digit context; log route 2e-8 under LgSound, the single libm assumption); 35-digit inverse theorems for any positive Decimal(10**e) incl. CPython's binary64 value. Trusted: Lean kernel, tools/gen_consts.py, harness generators. The enclosure constants and tools/gen_c06_close.py are not trusted (re-certified in the "
        "kernel). base_unit_price_to_tick ends in math.floor(math.log(...)) (libm): its theorem assumes the result is the floor logarithm up to a relative "
        "perturbation 1e-9 of the argument; that hypothesis is evaluated on every observed call with a 60-digit reference. The eps-robust theorems need relative "
        "error <= eps for Decimal /, *, **2, sqrt; this is PROVED for the model's round35/dsqrt35/dpowNat (Proofs/Numerics.lean, eps = 5e-35) for numbers with "
@@ -25,7 +25,7 @@ claim("C07",
        "linearity in liquidity, closed forms, open/close round trip in every rounding context; tied to get_liquidity/get_amounts/"
        "V3CoreLib.new_position/close_position by bit-exact differential execution (driver runs Decimal prec-35 semantics) and by the property "
        "oracle evaluated with exact Fractions on the implementation's outputs.",
-  note="The source of V3CoreLib.new_position / get_token_amounts / close_position (int- and Decimal-liquidity readings) and update_fee with its two inner closures is translated to Lean by tools/py2lean.py on every run and proved equal to the kernel/fee model (Proofs/Tie/UniCore.lean, 10 Tie_unicore_* theorems) for every rounding context, results and exception classes; update_fee is tied for an integer last_tick, the nan of a fresh market by differential execution only. Trusted: Lean kernel, harness generators, Decimal = exact-then-round35. Theorems are for the exact rational semantics; the rounding of the "
+  note="No over-spend / maximality / L+1-over-spends are stated on the driven function: get_liquidity = getLiquidityWei on to_wei-converted amounts (truncation proved, beyond-35-digit rounding witnessed), in token amounts and on ticks incl. MIN/MAX (tick bounds from the C06 sweep); 35-digit theorems in every regime and end to end (reported <= offered x (1+1e-30)); round trip on the driven kernel and on the UniLpMarket state machine (add then remove+collect credits exactly the used amounts). The source of V3CoreLib.new_position / get_token_amounts / close_position (int- and Decimal-liquidity readings) and update_fee with its two inner closures is translated to Lean by tools/py2lean.py on every run and proved equal to the kernel/fee model (Proofs/Tie/UniCore.lean, 10 Tie_unicore_* theorems) for every rounding context, results and exception classes; update_fee is tied for an integer last_tick, the nan of a fresh market by differential execution only. Trusted: Lean kernel, harness generators, Decimal = exact-then-round35. Theorems are for the exact rational semantics; the rounding of the "
        "three Decimal divisions is covered by the property's own 1e-30 tolerance (measured max deviation reported in evidence).",
   technique="Lean 4 proof (Nat/Rat inequalities) + differential correspondence with the Python code",
   ref="DESIGN.md §2 C07")
@@ -37,7 +37,7 @@ claim("C11",
        "get_max_borrow_amount = 0.99 x limit and is accepted, beyond the limit is rejected; get_max_withdraw_amount <= supplied, accepted in exact arithmetic, "
        "beyond it rejected. Tied to AaveV3Market by bit-exact differential execution (outcome class, cause, post-state, amounts, figures) on in-memory markets "
        "over the repo's risk-parameter CSVs and by an exact-Fraction oracle at the accept/reject frontier x {1 +- 1e-9, 1 +- 1e-3}.",
-  note="Known finding max_withdraw.rejected-by-rounding: withdraw(get_max_withdraw_amount) is refused under the Decimal rounding (kernel-checked witness "
+  note="All user operations keep HF >= 1 (risk-model steps; state-machine tie proved for borrow, withdraw, change_collateral, cash repay and supply top-up), with a witness that operations accepted at HF < 1 after a price move leave HF < 1; change_collateral(True) requires usageAsCollateralEnabled (fix 500c37d). Known finding max_withdraw.rejected-by-rounding: withdraw(get_max_withdraw_amount) is refused under the Decimal rounding (kernel-checked witness "
        "C11_fails_max_withdraw_rounded; the acceptance theorem carries _partial). HF >= 1 after a withdrawal holds up to the sub_base_amount dust "
        "(< 1e-18 scaled units, explicit in the theorem, with a witness that the term is needed). supply / repay are modelled in the Aave state machine (C10/C13), "
        "not here. Exact rational semantics; 35-digit rounding reproduced bit-exactly by the driver; within 1e-30 of HF = 1 the rounding decides. One defect repaired (ba78d79).",
@@ -53,7 +53,7 @@ claim("C12",
        "visited, every recorded action is a proper step; the pair selection (smallest unvisited debt, largest collateral, last on ties) is characterised. Tied to the "
        "code by bit-exact differential execution on in-memory markets (multi-collateral, multi-debt, per-token indices, 2-4-bar price paths, ties, malformed shapes) "
        "and by an exact-Fraction oracle on the implementation's own observations (states at every recorded action, wallet).",
-  note="Exact rational semantics; 35-digit rounding reproduced bit-exactly by the driver and measured. Statements hold up to the dust helper.sub_base_amount snaps "
+  note="'collateral => LT > 0' is no longer assumed: it is derived from the proved Admitted invariant of reachable accounts (C12_reachable_flags_admitted) plus a property of the risk table alone; pre-fix witness C12_fails_flag_on_non_collateralisable_pre_fix (fix 500c37d); token-unit form of the close factor with the low-priced-debt observation; no DemeterError under the guarded 35-digit rounding. Exact rational semantics; 35-digit rounding reproduced bit-exactly by the driver and measured. Statements hold up to the dust helper.sub_base_amount snaps "
        "(< MIN_TOKEN_VALUE = 1e-18 - 1e-27 scaled units), explicit in the theorems. WF hypotheses: prices and indices > 0, bases >= 0, unique keys, collateral => LT > 0 "
        "(re-checked on the CSVs each run). Wallet-untouched is structural in the model and oracle-checked on the code. Three defects repaired (97b6191, 1a74ab7, 75ca867). update() never raises DemeterError under any monotone idempotent rounding "
        "(C12_update_never_raises_demeter_error, with a witness that non-negative debts are needed); the whole-loop refinement C12_state_machine_refines_risk_model_update transfers "
@@ -86,7 +86,7 @@ claim("C17",
        "pool; round trip returns <= paid when impact <= 0, with an exact closed form otherwise; shares never negative. Tied to the code by step-wise differential "
        "execution against real GmxMarket / GmxV2Market objects (v1 bit-exact under 35-digit rounding, v2 at 1e-12) and independent Fraction oracles written from "
        "the property and contract, on recorded CSV rows and generated rows.",
-  note="The float code of demeter/gmx/gmx_v2 (utils, MarketUtils, SwapPricingUtils, ExecuteDepositUtils, ExecuteWithdrawUtils: 23 functions) is translated in float mode over an abstract number type and proved equal to Demeter/GmxV2.lean for every number type and Ops (Proofs/Tie/Gmx2.lean, Gmx2Exec.lean) up to mintAmount and outputAmount; the ties through ** assume the base is not negative and not zero with a negative exponent (proved over Rat for exponent >= 0); generated code at Float agrees with CPython bit for bit on random cases, libm pow is an oracle on both sides; market2.py (wallet, data rows) is tied by differential execution only. Known findings with kernel-checked witnesses: the code never floors target/average/rebate, so it differs from the Vault at the rule's mirror point (0 vs 85 bp) "
+  note="v2 withdraw rejects non-finite outputs (fix 2f5f4ac; theorem for any number type). No-profit over arbitrary same-bar operation sequences: v1 any tokens incl. sell-all, v2 under non-positive impact. v1 fee range, <= 1 bp distance from exact and round-trip margin proved for every rounding with eps <= 1/1000 (CPython: 1e-33). Operation-level impact-pool cap. Vault 1 bp rule with the target derived from the row. Wallet deltas asserted on every call (exact, or the broker's 1e-5 dust sweep). The float code of demeter/gmx/gmx_v2 (utils, MarketUtils, SwapPricingUtils, ExecuteDepositUtils, ExecuteWithdrawUtils: 23 functions) is translated in float mode over an abstract number type and proved equal to Demeter/GmxV2.lean for every number type and Ops (Proofs/Tie/Gmx2.lean, Gmx2Exec.lean) up to mintAmount and outputAmount; the ties through ** assume the base is not negative and not zero with a negative exponent (proved over Rat for exponent >= 0); generated code at Float agrees with CPython bit for bit on random cases, libm pow is an oracle on both sides; market2.py (wallet, data rows) is tied by differential execution only. Known findings with kernel-checked witnesses: the code never floors target/average/rebate, so it differs from the Vault at the rule's mirror point (0 vs 85 bp) "
        "and for targets below 200 wei; the v2 positive-impact round trip profits on a frozen row (by design of the GM formulas). v2 Float vs Rat semantics is measured "
        "(libm pow is an oracle on both sides). Five defects repaired (155684f, 8743204, 6f3533d, a18ed8c, 6da6425).",
   technique="Lean 4 proof (floor arithmetic, field arithmetic, induction over op lists) + step-wise differential correspondence + Fraction oracles",
@@ -98,7 +98,7 @@ claim("C19",
        "run) and pandas copy-on-write every strategy's observation equals its solo run for every strategy list, order, thread count and schedule; negation witnesses "
        "for both pre-fix behaviours. Oracle: the real BacktestManager with 1-4 scripted strategies (14 behaviours incl. add_column and in-place data overwrite) over "
        "{uni},{uni,uni},{uni,aave}, threads 1/2/4, orders, each pooled case in a fresh subprocess, dumps compared exactly with solo runs.",
-  note="OS scheduling / fork / pickling are runtime behaviour: measured, not proved. copy.deepcopy and DataFrame.copy(deep=False) under copy-on-write trusted (frames "
+  note="Process-wide state is modelled (layer G per process and per worker, any assignment): C19_manager_isolated assumes GIntact; for the code under test this is measured on every backtest (decimal context, class-level Snapshot attributes) and pinned by the source flag snapshotHoldsNoSharedObject (fix a78c4ba: Snapshot.market_status was one class-level dict). Worker assignment is observed through pids; cellsCopied covers list, dict and set cells only; the flag extractor refuses seven more realistic variants (selftest 108/108). OS scheduling / fork / pickling are runtime behaviour: measured, not proved. copy.deepcopy and DataFrame.copy(deep=False) under copy-on-write trusted (frames "
        "hashed and configured markets checked after every run). For pandas < 3 only the partial theorem (no in-place overwrites) holds. Defects repaired: 5529c57, f43dc27.",
   technique="Lean 4 proof (induction over strategy lists, all schedules) + whole-run differential oracle against solo runs",
   ref="DESIGN.md §2 C19")
@@ -110,7 +110,7 @@ claim("C20",
        "variance (ddof 1), volatility, Sharpe, alpha/beta equal their direct formulas; every entry of performance_metrics is the corresponding function on "
        "interval/duration derived from the index. Tied to the code by differential execution (exact model fed the floats' exact values, 1e-9 relative) and by an "
        "exact-Fraction oracle of the definitions on the implementation's outputs.",
-  note="_withdraw_with_high_low (the drawdown scan) and return_value are translated from the source on every run and proved equal to Metrics.withdrawHighLow / returnValue at Rat for every list, with index safety shown (Proofs/Tie/Metrics.lean); the numpy/pandas functions remain tied by differential execution and source-flag constants only. Trusted: Lean kernel, tools/consts_metrics.py (365, 1e9, 86400, scan start values), harness generators. Float rounding of numpy/pandas is measured (max 3.9e-11), "
+  note="alpha and beta are separate values: beta is independent of the APR pow (theorem and oracle); benchmark entries and the no-benchmark case are proved; the default risk-free rate is read from the source and exercised (also rf = 0); irregular indexes exercised; the scan body is pinned by the py2lean tie, max_draw_down's quotient by a source flag. _withdraw_with_high_low (the drawdown scan) and return_value are translated from the source on every run and proved equal to Metrics.withdrawHighLow / returnValue at Rat for every list, with index safety shown (Proofs/Tie/Metrics.lean); the numpy/pandas functions remain tied by differential execution and source-flag constants only. Trusted: Lean kernel, tools/consts_metrics.py (365, 1e9, 86400, scan start values), harness generators. Float rounding of numpy/pandas is measured (max 3.9e-11), "
        "not proved; pow/sqrt are oracle parameters (driver: Lean Float). Series with return variance < 1e-12*mean^2 compared by outcome class only. Defect repaired: 4a8a932.",
   technique="Lean 4 proof (loop invariant + list induction over Rat) + differential correspondence + exact-Fraction oracle",
   ref="DESIGN.md §2 C20")
@@ -124,7 +124,7 @@ claim("C01",
        "reports cash + sum amount x round(mark) (cached premium + current cash on closed bars), by induction over bar lists. GMX v1/v2: balance formulas from raw holdings. "
        "Each part is tied to the code by step-wise differential execution against its compiled model and by an independent exact-Fraction valuation of the implementation's "
        "raw state after every step, also through the real Broker.get_account_status with equal and different quote tokens, and on whole Actuator.run backtests (GMX, Deribit).",
-  note="Theorems are for exact rational arithmetic unless stated for every context; 35-digit Decimal rounding reproduced bit-exactly by the drivers. Aave's 4-decimal quantisation "
+  note="Proved end to end for a concrete six-market world (Uniswap LP, oSQTH/WETH pool + Squeeth over one positions container, GMX v1, Deribit on/off the hourly grid, Aave within its 1e-4 quantum): every account row of every run = wallet + sum of conv x raw holdings, with the count and dict invariants carried along the run (Proofs/C01/EndToEnd.lean); value-level exactly-once equation for the pool + Squeeth pair; the Deribit run theorem is over runBarX (trades from after_bar / notify). Known finding: direct transfer_position_out/in calls (public API Squeeth itself uses) leave a position counted zero or two times (witness C01_fails_direct_transfer; the once-theorems that exclude those calls are named _partial). Not composed: GMX v2, pool fee accrual inside Demeter.Squeeth. Theorems are for exact rational arithmetic unless stated for every context; 35-digit Decimal rounding reproduced bit-exactly by the drivers. Aave's 4-decimal quantisation "
        "of totals is allowed explicitly (decision in DESIGN.md). GMX v2 is float: compared at 1e-12. The cross-market composition (market parts + broker sum) is by theorem for "
        "the broker sum over arbitrary per-market values and by oracle for the conversion of concrete markets. Fixes relied on: ce449ad, a6df880, c97518c, 7955ce6.",
   technique="Lean 4 proof (list induction, invariants over operation histories) per market + step-wise differential correspondence + exact-Fraction valuation oracle",
@@ -136,7 +136,7 @@ claim("C02",
        "resample-first), a witness that a peeking view is not local, and the concrete prefix theorem for the Actuator model. Tied to the code by two-suffix runs of the real "
        "Actuator (probe markets, Uniswap, Uniswap+Aave, Uniswap+Deribit; 1 min, 5 min, 1 h) comparing rows/actions/snapshots of the common prefix, by comparing the real "
        "lookups with the model's views, by hashing the supplied frames (incl. nested order-book lists) before and after, and by reruns on the same inputs.",
-  note="Frame immutability and rerun equality are aliasing/runtime facts a pure model cannot exhibit: measured by hashing, not proved. A strategy that reads self.data ahead of "
+  note="Run-level prefix theorem over run under 'same driving market' (C02_run_prefix_same_driving_market); false otherwise - known finding lookahead:bar-index:driving-market-changes-in-suffix (get_test_range picks the market with most rows of the WHOLE frame; witness C02_fails_driving_market_changes_in_the_suffix, reproduced on the real Actuator). Loop instantiated for the Uniswap + Squeeth pair with the real model steps and closed-loop hooks (C02_pair_markets_prefix). Rerun clause in the code's order initialize-then-reset with a generated copy-vs-alias flag (coreRunSavesTriggerListByCopy; the alias variant breaks C02_rerun2*). Frame immutability and rerun equality are aliasing/runtime facts a pure model cannot exhibit: measured by hashing, not proved. A strategy that reads self.data ahead of "
        "time is outside the property. GMX v1/v2 and Squeeth whole runs are in the two-suffix / rerun mix at 1/5/15 min/1 h with per-frame missing minutes; per-market balance entries and the "
        "append-only account history are compared; frame digests cover dtypes, index class/freq/tz, nested list cells.",
   technique="Lean 4 proof (fold/scan prefix lemma + view locality) + two-suffix differential runs, frame hashing, reruns, append-only history oracle, crafted Deribit pairs",
@@ -149,7 +149,7 @@ claim("C03",
        "rounding context) and that nothing pays out more than is held, lifted to operation sequences by induction (Deribit, GMX v1, Squeeth). Each part runs operation sequences "
        "with boundary, oversized, zero and negative amounts against the real market through Broker.get_account_status at frozen prices, compares step-wise with the compiled model "
        "and evaluates the net-value/non-negativity oracle on the implementation's own states.",
-  note="Account funding calls (set_balance/add_to_balance/subtract_from_balance) move value by design and are not operations here. Known findings with kernel-checked witnesses: "
+  note="Deribit value theorems are proved under bids <= round(mark) <= asks; on the raw quantifier they hold when marks or all book prices are multiples of the fee step (_ongrid_partial, _pricegrid_partial) and are kernel-refuted otherwise (mark = ask = 0.0000016, buy 1000: 105 -> 105.0002; known findings deribit.buy/sell.value-created.offgrid-mark-*); non-negativity and over-redemption hold for every mark. Broker part: account quoted in another token than the market (stable coin off its peg) exercised. Account funding calls (set_balance/add_to_balance/subtract_from_balance) move value by design and are not operations here. Known findings with kernel-checked witnesses: "
        "moving an LP position into/out of a Squeeth vault re-values its oSQTH at index vs mark; liquidation of an underwater vault forgives the shortfall; remove_liquidity with a "
        "caller-chosen pool price; GMX v2 deposit with positive price impact. Theorems for exact arithmetic unless stated; rounding measured bit-exactly. Many fix: commits (negative "
        "amounts accepted by swaps, adds, deposits, supplies, borrows; oversells in Deribit/GMX).",
@@ -162,7 +162,7 @@ claim("C04",
        "transaction (Uniswap helpers, Squeeth update per liquidate). Witness theorems show the pre-repair code was not atomic. A rejection-directed generator constructs, per "
        "operation and cause, states in which exactly that precondition fails, and diffs deep snapshots of the real objects around the raising call; the model's post-rejection state "
        "is compared too.",
-  note="has_update is excluded by the property. Aave update(): _do_liquidate is atomic (returns with one record or raises with the core untouched); an update() that raises before a recorded step leaves everything "
+  note="Broker swaps take Decimal, float or int amounts with allow_negative_balance on or off; a swap either returns its one record or leaves the wallet intact (fix 83dd7db). Aave change_collateral: reject-noop for every state and bar, also when the health-factor evaluation itself raises (fix 65bb898). has_update is excluded by the property. Aave update(): _do_liquidate is atomic (returns with one record or raises with the core untouched); an update() that raises before a recorded step leaves everything "
        "intact; on well-formed bars/states (computable Aave.updWF, evaluated by harness and driver on every update()) it completes with the risk model's state (exact arithmetic); a "
        "raise between two recorded steps on malformed bars leaves the completed steps (counted, never observed). Holds because of the repairs (0614350, 07ef1e2, 236eb3f, 4da5e32, "
        "a6df880, 763165f, 4fb272a, 155684f, 8743204, f93950b ...).",
@@ -178,7 +178,7 @@ claim("C05",
        "independent trace oracle; for scripts whose hooks also raise and change strategy.triggers (general model runG, proved equal to run on operation-only scripts): the books "
        "of every run failed or not, a failing run is a prefix (calls, account history, actions) of the run without the raise, which exception leaves run(), the next run() "
        "starts clean, operations issued from notify() are recorded, stamped and delivered in their own bar.",
-  note="Markets abstract; pandas resample/.loc exercised and compared, not modelled internally; hooks run statement lists (op / append trigger / remove trigger / raise) - list.insert and "
+  note="finalize() operations are modelled and delivered (fix 0438378). Record stamps are derived from the _currents.timestamp clock tied to three source flags (the seeded 'clock set after before_bar' variant has a witness). The bar index is proved to cover exactly the driving market's data (both directions). Markets whose set_market_status raises on a missing row are modelled (runStrict; per-class flags read from the source and compared with the real objects on every run). A real-market stream (Uni + Squeeth + Deribit under a real Actuator, oracle only: harness/c05_real.py) checks records, stamps, deliveries and expiry bars. Markets abstract; pandas resample/.loc exercised and compared, not modelled internally; hooks run statement lists (op / append trigger / remove trigger / raise) - list.insert and "
        "rebinding strategy.triggers mid-loop are not modelled; the RuntimeError handler's file output is observed only; the exact row count of a failed run is oracle-checked (the "
        "prefix relation is proved). The oracle on the implementation's trace is a Python restatement of the clauses.",
   technique="Lean 4 proof (induction over bar lists on a trace semantics, cut-refinement prefix proof, refinement runG = run) + exact call-trace differential execution of the real Actuator + independent trace oracle",
@@ -191,7 +191,7 @@ claim("C08",
        "denominator; liquidity added in a bar earns in it; witness that the pre-repair refresh broke the path start. Tied to the code by bit-exact differential execution of "
        "update_fee (int, int64, float64 tick dtypes, boundary stream) and of every set_market_status/update() in real Actuator.run with scripted operations, plus a Fraction "
        "oracle and paired runs.",
-  note="The source of V3CoreLib.new_position / get_token_amounts / close_position (int- and Decimal-liquidity readings) and update_fee with its two inner closures is translated to Lean by tools/py2lean.py on every run and proved equal to the kernel/fee model (Proofs/Tie/UniCore.lean, 10 Tie_unicore_* theorems) for every rounding context, results and exception classes; update_fee is tied for an integer last_tick, the nan of a fresh market by differential execution only. Arithmetic theorems for exact rationals; the driver reproduces 35-digit Decimal bit-exactly and the oracle allows 1e-30. Bar 0 starts at its own close (no previous bar; "
+  note="Run-level theorem C08_run_fees (every bar, arbitrary operation lists, fresh market and positive pool liquidity only); the side conditions lower < upper and liquidity >= 0 are proved invariant for the code's kernel in the exact and 35-digit contexts (empty ranges are refused); the oracle also evaluates uncollected fees and the position count. The source of V3CoreLib.new_position / get_token_amounts / close_position (int- and Decimal-liquidity readings) and update_fee with its two inner closures is translated to Lean by tools/py2lean.py on every run and proved equal to the kernel/fee model (Proofs/Tie/UniCore.lean, 10 Tie_unicore_* theorems) for every rounding context, results and exception classes; update_fee is tied for an integer last_tick, the nan of a fresh market by differential execution only. Arithmetic theorems for exact rationals; the driver reproduces 35-digit Decimal bit-exactly and the oracle allows 1e-30. Bar 0 starts at its own close (no previous bar; "
        "decision in DESIGN.md). pandas row extraction and the Actuator phase order are exercised here and proved in C05. Fixes: e33398a, 43784a1.",
   technique="Lean 4 proof (grind over the insertion sort, induction over bars and operation lists) + differential correspondence + exact-Fraction oracle",
   ref="DESIGN.md §2 C08")
@@ -202,7 +202,7 @@ claim("C09",
        "outcomes step by step, final states mirror each other. Kernel reciprocity |s(t)s(-t) - 2^192| <= 2 max for all ticks (exhaustive kernel sweep, C06_reciprocity) and a "
        "witness that floor does not commute with negation (add_liquidity_by_value). The harness runs the real market on a pool and its mirror and compares all observables at 1e-12 "
        "(0.1 % for estimate helpers), and compares both orientations bit-exactly with the model.",
-  note="The source of V3CoreLib.new_position / get_token_amounts / close_position (int- and Decimal-liquidity readings) and update_fee with its two inner closures is translated to Lean by tools/py2lean.py on every run and proved equal to the kernel/fee model (Proofs/Tie/UniCore.lean, 10 Tie_unicore_* theorems) for every rounding context, results and exception classes; update_fee is tied for an integer last_tick, the nan of a fresh market by differential execution only. Closeness of the concrete kernel's results (1e-12 / 0.1 %) is MEASURED, not proved (a full error analysis through the integer floors is out of scope): |tick| <= 330000, "
+  note="The orchestration theorems (incl. explicit prices, add_liquidity_by_value in the exact context, the views, fee accrual off a stationary bound) hold for kernels that satisfy the mirror law; the law has a proved non-trivial instance and PROVABLY NO instance for the code's own kernel (C09_std_kernel_has_no_exact_mirror): the code's helpers are proved mirror-symmetric up to an explicit reciprocity slack bounded over the whole tick range, and the propagation of that slack through the orchestration is measured (1e-12 / 0.1 %), not proved. Findings: add_liquidity_by_value tick rounding; fee for a tick stationary on a range bound (half-open [lower, upper) does not mirror; witnesses C09_fails_fee_mirror_on_lower/upper_bound). A price exactly on a range bound is skipped by the oracle, with a witness that the regime is not mirrored there. The source of V3CoreLib.new_position / get_token_amounts / close_position (int- and Decimal-liquidity readings) and update_fee with its two inner closures is translated to Lean by tools/py2lean.py on every run and proved equal to the kernel/fee model (Proofs/Tie/UniCore.lean, 10 Tie_unicore_* theorems) for every rounding context, results and exception classes; update_fee is tied for an integer last_tick, the nan of a fresh market by differential execution only. Closeness of the concrete kernel's results (1e-12 / 0.1 %) is MEASURED, not proved (a full error analysis through the integer floors is out of scope): |tick| <= 330000, "
        "tolerance max(1e-12, 2/L_min), states with the price within 1e-9 of a range bound skipped as ill-conditioned. Known finding: add_liquidity_by_value rounds the floor tick to "
        "the spacing, so the two token orders can land one spacing apart. The action log is excluded from the mirrored state (lower/upper price labels swap). Fixes: 67e82e9, 43cd360.",
   technique="Lean 4 simulation proof with an abstract kernel + exhaustive kernel sweep + two-orientation differential execution",
@@ -213,7 +213,7 @@ claim("C10",
        "dust), nothing else changes; full withdraw/repay removes the entry; balance = a x I_now / I_0 after any history of bars and non-targeting operations (supply and debt side); "
        "split = merge for supplies, borrows, withdrawals. Tied to the code by bit-exact step-wise differential execution over random non-decreasing index paths and interleavings "
        "and a shadow-ledger oracle checking 1e-18 on every step.",
-  note="Exact-arithmetic theorems plus eps-robust round trips on supply and debt side (C10_roundtrip_robust/_pyG, C10_debt_roundtrip_robust/_pyG; eps = 5e-35 proved for the guarded "
+  note="Accrual and round trips go through bars with non-liquidating update(); interleaved sum formula with the dust rule as an explicit term; payback pinned and bounded; the 1e-5 Asset.sub overdraft is a known finding (move:supply/repay:overdraft-dust); not covered by the interleaved formula: repay-with-collateral out of the token's own supply, borrow(None), a liquidating update(). Exact-arithmetic theorems plus eps-robust round trips on supply and debt side (C10_roundtrip_robust/_pyG, C10_debt_roundtrip_robust/_pyG; eps = 5e-35 proved for the guarded "
        "35-digit context); split = merge proved for supply, borrow, withdraw, cash repay (incl. wallet up to Asset.sub's 1e-5 dust and the full-repay/dust-snap case), "
        "repay(a);repay(None) = repay(None), and repay out of collateral incl. the capped branch. The sub_base_amount clamp (< 1e-18) is explicit in the statements.",
   technique="Lean 4 proof (inversion of accepted calls, induction over histories, eps-propagation) + step-wise differential correspondence + shadow-ledger oracle; harness split/merge oracle also on the wallet and for collateral repays",
@@ -224,7 +224,7 @@ claim("C13",
        "preserved by every read, write, rejected call, liquidation and bar change, hence an invariant of every history, hence every view read equals its from-scratch recomputation "
        "in every reachable state; per-token value = base x index x price; listed supplies carry the stored collateral flag. Tied to the code by step-wise differential execution of "
        "read-write-read interleavings (caches dumped) and a warm-vs-cold-cache oracle.",
-  note="Hypotheses: the bar's data covers the held tokens, indices non-zero; no raise is excluded: the _do_liquidate debt check is proved unreachable (C13_liquidate_never_raises_debt_exceeds: monotone idempotent rounding, no "
+  note="The formerly excluded raise is discharged also for the guarded 35-digit context (RndShrink). Hypotheses: the bar's data covers the held tokens, indices non-zero; no raise is excluded: the _do_liquidate debt check is proved unreachable (C13_liquidate_never_raises_debt_exceeds: monotone idempotent rounding, no "
        "negative debt; hypothesis Aave.updWF evaluated on every update() of the run, a raise on a well-formed state is a VIOLATION; RndMono instantiated for exact arithmetic only). APYs via the model's dpowNat. Fixes: 304deb1, c25cbec.",
   technique="Lean 4 proof (cache-coherence invariant, per-write reset lemmas, induction over histories) + differential execution + warm-vs-cold oracle",
   ref="DESIGN.md §2 C13")
@@ -235,7 +235,7 @@ claim("C15",
        "only at a level within +-0.1 %; mark caps exclude worse levels; the written-back book is the old book minus fills and is never overdrawn along any in-bar sequence; cash and "
        "position change exactly with size-weighted averages; equity = cash + sum amount x round(mark); sells of what is not held are rejected with the state intact. Tied to the code "
        "by bit-exact step-wise differential execution against driver_deribit (Lean Float for the float sizes) and a Fraction oracle on the implementation's observations.",
-  note="Sum and cash theorems are for exact Decimal arithmetic with book floats read as reals; C15_market_fill_total_any_float extends the fill total to any float semantics satisfying "
+  note="Limit orders fill exactly once at one level (buy/sell, token/USD price), discharging the position/cash theorems for them; sell-side book theorems; the following order is checked against the shrunken book (proved for orders without a mark-price cap). Sum and cash theorems are for exact Decimal arithmetic with book floats read as reals; C15_market_fill_total_any_float extends the fill total to any float semantics satisfying "
        "three IEEE/CPython sanity laws (assumed of the hardware). Assumes unique instrument names and distinct price levels per side (data contract). Ten fix: commits.",
   technique="Lean 4 proof (induction over levels, fills and operation lists) + step-wise differential correspondence + Fraction oracle",
   ref="DESIGN.md §2 C15")
@@ -247,7 +247,7 @@ claim("C16",
        "exactly the due positions are removed with one Expired record each; over any run records = settlements; with the instrument's expiry fixed by the data there is no record "
        "before the first on-grid bar at/after expiry, one record there if the position still exists, and no return once delisted. Tied to the code by whole-run differential execution of a real Actuator.run with a minutely Uniswap co-market and an "
        "oracle recomputed from the data frames and the strategy's ledger.",
-  note="Run-level exactly-once holds for arbitrary trade interleavings (Proofs/C16/General.lean); the earlier hold-run and not-traded theorems are instances. check_transaction looks "
+  note="update() theorems are about the non-raising path and carry SettleGuard (every due in-the-money position has underlying != 0); without it update() raises half-way as the code does (updateE, compared step-wise). Run-level theorems cover runBarX (on_bar, after_bar, notify): exactly-once needs the settling bar's late hooks not to re-open the instrument, proved necessary by C16_late_hook_buy_is_settled_one_bar_late. is_open and the book are derived in the model from the option frame. Payoff formula for any config (ETH -6, BTC -8). Run-level exactly-once holds for arbitrary trade interleavings (Proofs/C16/General.lean); the earlier hold-run and not-traded theorems are instances. check_transaction looks "
        "at the listing (in book, state open), never at the expiry: an expired instrument still listed as open can be bought and is settled by the same bar's update (witnessed); "
        "the 'never returns' clause assumes delisting. A strategy calling update() itself is excluded. The payoff ratio is numpy float on "
        "book rows and Decimal on the fallback price, both modelled; theorems use exact reals, float last-bit deviation measured (0 observed after rounding to 1e-6). Fix: 9b40b72.",
